@@ -240,7 +240,8 @@ PROPS = {
                        "SyntaxPattern::match_datum itself is under contract in Verus (unit macro_match): _ and pattern variables match any form "
                        "(a variable is bound to exactly that form), a literal identifier matches only the same symbol and binds nothing, literal "
                        "data match only equal data, any other pairing of a non-list pattern with a datum does not match.",
-        "unverified": ["sub-lists, vectors and ellipsis (match_datum_stream: an uninterpreted relation in unit macro_match); template filling (substitude*); String / Real literal data; rule construction "
+        "unverified": ["BOUNDED (not proof): macro_witness compares the real expander with a reference matcher on 40 820 (pattern, datum) pairs of a stated ellipsis-free class (patterns: atoms a b x(literal) _ 1 and lists of length <= 2 over atoms, (), (atom); data likewise, also with dotted tails)",
+                       "sub-lists, vectors and ellipsis (match_datum_stream: an uninterpreted relation in unit macro_match); template filling (substitude*); String / Real literal data; rule construction "
                        "(transform_transformer/transform_pattern/transform_template in parser.rs): a breakage confined to these is not detected"],
         "assumptions": ["kani::stub: RandomState::new replaced by fixed keys (no hashing happens on the verified arms)"],
     },
